@@ -46,4 +46,20 @@ theorem next_is_scheduled_iff (h : Bool) (w t : Int) :
     Browser.next_is_scheduled h w t = true ↔ (h = true ∧ t < w) := by
   simp [Browser.next_is_scheduled]
 
+theorem rearm_guard_eq (noNext : Bool) (sent : Nat) :
+    Browser.rearm_guard noNext (sent : Int) = (noNext || decide (sent < startupQueries)) := by
+  cases noNext
+  · simp only [Browser.rearm_guard, Bool.false_or]
+    have h4 : startupQueries = 4 := rfl
+    by_cases h : sent < startupQueries
+    · have h' : (sent : Int) < 4 := by omega
+      rw [decide_eq_true h, decide_eq_true h']
+    · have h' : ¬ (sent : Int) < 4 := by omega
+      rw [decide_eq_false h, decide_eq_false h']
+  · simp [Browser.rearm_guard]
+
+theorem rearm_when_eq (w e : Int) : Browser.rearm_when w e = max w e := rfl
+
+theorem rearm_lt_eq (a b : Int) : Browser.rearm_lt a b = decide (a < b) := rfl
+
 end Zc.GenFacts.Browser
